@@ -12,12 +12,12 @@ LEVEL = 'exploration'
 RULE = (
     'cases = chains of <=6 steps whose return values are Continue(f,*a,**k), Wait(f,msg,data) (+ a resume value or none), '
     'a plain value, Stop, UnsuccessfulResult or Kill(msg), with generated positional/keyword arguments and resume values; '
-    'each chain is run uninterrupted and once more from a pickled checkpoint taken at every state entry; the oracle is a '
+    'each chain is run uninterrupted and once more from a pickled checkpoint taken at every state entry and in every lifecycle hook between a step return and the next state; the oracle is a '
     'reference interpreter of the command semantics; non-trivial = the chain carries a keyword argument, a resume value '
     'or a restore point after the first step; distinct = SHA-1 of the case JSON'
 )
 ASSUMPTIONS = [
-    'arguments are plain picklable values; checkpoints are taken at state entries (step boundaries)',
+    'arguments are plain picklable values; checkpoints are taken at state entries (step boundaries) and from lifecycle hooks that run while CREATED/RUNNING is being left (there the step that just returned may be executed again)',
     'every restore uses a fresh deserialisation in a fresh event loop',
 ]
 BUDGET = {
@@ -25,6 +25,8 @@ BUDGET = {
     'thorough': {'enum': ['small'], 'hyp': 60000, 'shards': 16},
 }
 
+# hooks that run between the return of a step and the entry of the next state, while the old state is still current
+HOOK_CKPTS = ('on_exit_running', 'on_exiting', 'on_run', 'on_wait', 'on_finish', 'on_kill', 'on_entering')
 ARGS = st.lists(st.one_of(st.integers(-1, 3), st.sampled_from(['a', '']), st.none(), st.booleans(), st.lists(st.integers(0, 2), max_size=2)), max_size=3)
 KWARGS = st.dictionaries(st.sampled_from(['p', 'q', 'r']), st.one_of(st.integers(0, 3), st.sampled_from(['x']), st.none()), max_size=3)
 RESUMES = st.one_of(st.just(NOVALUE), st.integers(0, 3), st.sampled_from(['v', '']), st.none(), st.lists(st.integers(0, 1), max_size=2), st.just({'__exc__': 'an exception instance is a value too'}), st.just({'__tuple__': [1, 2]}), st.booleans())
@@ -163,7 +165,7 @@ def execute(case):
     full_resumes = resumes + restore.DEFAULT_RESUMES[len(resumes) :]
     exp_calls, exp_outcome = model(program, resumes)
     run_case = {'program': program, 'schedule': []}
-    ref = restore.run_reference(run_case, medium='pickle', resumes=full_resumes)
+    ref = restore.run_reference(run_case, medium='pickle', resumes=full_resumes, hook_ckpts=HOOK_CKPTS)
     if 'construct_error' in ref:
         return {'violations': [{'clause': 'construct', 'detail': repr(ref['construct_error'])}], 'nontrivial': False, 'classes': []}
     got = _norm_calls(ref['steps'])
@@ -172,6 +174,7 @@ def execute(case):
         v('continuation-args', f'executed {got} expected {exp_calls}')
     _check_outcome(ref['summary'], exp_outcome, v, 'uninterrupted')
     n_restores = 0
+    n_hook = 0
     if not viol:
         for ckpt in ref['checkpoints']:
             if 'error' in ckpt:
@@ -186,7 +189,15 @@ def execute(case):
                 continue
             want = _norm_calls(restore.steps_after(ref, ckpt))
             got = _norm_calls(run['steps'])
-            if got != want:
+            if ckpt['why'].startswith('hook:'):
+                # taken while the old state was still current: the step that had just returned may run once more
+                # (at-least-once), everything after it is exactly the reference
+                n_hook += 1
+                entered = [e for e in ref['trace'][: ckpt['n_trace']] if e['k'] == 'enter']
+                again = _norm_calls([(e['step'], e['args'], e['kwargs']) for e in entered[-1:]])
+                if got != want and got != again + want:
+                    v('restored-continuation-args', f"restored from a checkpoint taken in {ckpt['why'][5:]} after {len(entered)} steps: executed {got} expected {want} (optionally preceded by {again})")
+            elif got != want:
                 v('restored-continuation-args', f"restored at entry #{ckpt['index']} ({ckpt['state']}): executed {got} expected {want}")
             _check_outcome(run['summary'], exp_outcome, v, f"restored at entry #{ckpt['index']}")
     has_kwargs = any(s['ret'][0] == 'continue' and s['ret'][3] for s in program['steps'])
@@ -197,6 +208,8 @@ def execute(case):
         classes.append('resume-value')
     if n_restores > 1:
         classes.append('restores')
+    if n_hook:
+        classes.append('hook-time-checkpoint')
     classes.append('end:' + exp_outcome['state'])
     return {
         'violations': viol,
